@@ -91,10 +91,14 @@ def run(ctx):
     n_mc = len(jobs)
 
     # 2. generation: Fuse events only (long, so that penalties are served and grow) ...
-    plans = [dict(p=H.node_params("gradual", w=2, len=60, okweight=14), num=40), dict(p=H.node_params("hard", w=2, len=30, okweight=3), num=40),
+    # (gradual, Min=1: every connection error fuses, so that bad recoveries, penalty growth and the reset after a
+    # good recovery all occur within one behaviour)
+    plans = [dict(p=H.node_params("gradual", w=2, len=60, okweight=14), num=30), dict(p=H.node_params("gradual", w=1, mn=1, len=140, okweight=16, maxtick=10), num=40),
+             dict(p=H.node_params("hard", w=2, len=30, okweight=3), num=40),
              dict(p=H.node_params("hard", w=3, cool=12, len=30, okweight=3, maxtick=13), num=30)]
     if thorough:
         plans = [dict(p=H.node_params("gradual", w=2, len=160, okweight=18), num=300), dict(p=H.node_params("gradual", w=4, mn=3, len=80, okweight=14), num=300),
+                 dict(p=H.node_params("gradual", w=1, mn=1, len=200, okweight=16, maxtick=10), num=400),
                  dict(p=H.node_params("hard", w=2, len=40, okweight=3), num=500), dict(p=H.node_params("hard", w=3, cool=12, len=40, okweight=3, maxtick=13), num=400),
                  dict(p=H.node_params("hard", w=1, mn=1, cool=1, len=30, okweight=2), num=300)]
     for pl in plans:
